@@ -70,7 +70,7 @@ pub fn io_flush_zero_padding_fragmented() {
     forget(b);
 }
 
-//@ harness props=C13,C03 tier=quick unwind=10 unwindset=default_read_exact:8 mem_gb=4 timeout=600
+//@ harness props=C13,C03,C11 tier=quick unwind=10 unwindset=default_read_exact:8 mem_gb=4 timeout=600
 //@ bound: read_tag(6-byte tag) and CountBufRead on 8 symbolic bytes delivered in symbolic fragments of 1..3 bytes vs all at once
 #[cfg_attr(kani, kani::proof)]
 #[cfg_attr(kani, kani::stub(std::fmt::format, crate::verif_common::stub_format))]
